@@ -823,3 +823,17 @@ func (n *YNode) Clone() *YNode {
 	}
 	return &c
 }
+
+// Text returns a stable dump of one package directory.
+func (f Files) Text() string {
+	var names []string
+	for n := range f {
+		names = append(names, n)
+	}
+	sort.Strings(names)
+	var b strings.Builder
+	for _, n := range names {
+		fmt.Fprintf(&b, "--- %s\n%s", n, f[n])
+	}
+	return b.String()
+}
